@@ -17,6 +17,7 @@ import (
 	"os"
 	"os/exec"
 	"path/filepath"
+	"regexp"
 	"sort"
 	"strconv"
 	"strings"
@@ -125,6 +126,8 @@ func Record(cmd *exec.Cmd, dir string) (ops []Op, trace string, out []byte, err 
 }
 
 // ---- trace parser ----------------------------------------------------------------
+
+var retRE = regexp.MustCompile(`\)\s*= `)
 
 type rawCall struct {
 	name string
@@ -318,11 +321,12 @@ func Parse(trace, dir string) ([]Op, error) {
 			delete(pending, pid)
 		}
 		open := strings.IndexByte(rest, '(')
-		eq := strings.LastIndex(rest, ") = ")
-		if open < 0 || eq < open {
+		locs := retRE.FindAllStringIndex(rest, -1) // ") = ", with padding after a resumed call
+		if open < 0 || len(locs) == 0 || locs[len(locs)-1][0] < open {
 			continue
 		}
-		c := rawCall{name: rest[:open], args: splitArgs(rest[open+1 : eq]), ret: strings.TrimSpace(rest[eq+4:])}
+		eq, eqEnd := locs[len(locs)-1][0], locs[len(locs)-1][1]
+		c := rawCall{name: rest[:open], args: splitArgs(rest[open+1 : eq]), ret: strings.TrimSpace(rest[eqEnd:])}
 		failed := strings.HasPrefix(c.ret, "-1")
 		need := func(n int) error {
 			if len(c.args) < n {
